@@ -1151,12 +1151,29 @@ def deep_reference_requests(rng: random.Random) -> List[Dict[str, Any]]:
            '</aas:type><aas:value>%s</aas:value></aas:key><aas:key><aas:type>Property</aas:type><aas:value>%s</aas:value></aas:key></aas:keys>'
            '</aas:reference>' % (i, rng.choice(["a", "b", "nope"]))).encode()
     via = ["shells", c10.b64(shid), "submodels", c10.b64(i)]
-    return [P(["submodels"], sm, "obj"), P(["shells"], sh, "obj"),
-            c10.mk_req("POST", ["shells", c10.b64(shid), "submodel-refs"], 1, 1, "raw", ref),
-            c10.mk_req("GET", via, 1), c10.mk_req("GET", via + ["submodel-elements", "a"], 1),
-            c10.mk_req("PUT", via, 1, 0, {"p": "obj", "o": sm}, c10.serialise(sm, "json")),
-            c10.mk_req("DELETE", via, 1),
-            c10.mk_req("DELETE", ["shells", c10.b64(shid), "submodel-refs", c10.b64(i)], 1)]
+    out = [P(["submodels"], sm, "obj"), P(["shells"], sh, "obj"),
+           c10.mk_req("POST", ["shells", c10.b64(shid), "submodel-refs"], 1, 1, "raw", ref),
+           c10.mk_req("GET", via, 1), c10.mk_req("GET", via + ["submodel-elements", "a"], 1),
+           c10.mk_req("PUT", via, 1, 0, {"p": "obj", "o": sm}, c10.serialise(sm, "json")),
+           c10.mk_req("DELETE", via, 1),
+           c10.mk_req("DELETE", ["shells", c10.b64(shid), "submodel-refs", c10.b64(i)], 1)]
+    # (round 6) ... and a reference whose keys are well-formed (AASd-128 is about the key TYPES) but run through a LIST under a
+    # segment that is no index: resolving it raises ValueError, not KeyError
+    i2, sh2 = c10.IDS[0], c10.IDS[2]
+    sm2 = json.dumps({"modelType": "Submodel", "id": i2, "submodelElements": [
+        {"modelType": "SubmodelElementList", "idShort": "b", "typeValueListElement": "Property", "valueTypeListElement": "xs:int",
+         "value": [{"modelType": "Property", "valueType": "xs:int", "value": "1"}]}]}).encode()
+    ref2 = ('<aas:reference xmlns:aas="https://admin-shell.io/aas/3/0"><aas:type>ModelReference</aas:type><aas:keys><aas:key><aas:type>Submodel'
+            '</aas:type><aas:value>%s</aas:value></aas:key><aas:key><aas:type>SubmodelElementCollection</aas:type><aas:value>b</aas:value></aas:key>'
+            '<aas:key><aas:type>Property</aas:type><aas:value>%s</aas:value></aas:key></aas:keys></aas:reference>'
+            % (i2, rng.choice(["abc", "0", "7", "-1"]))).encode()
+    via2 = ["shells", c10.b64(sh2), "submodels", c10.b64(i2)]
+    out += [c10.mk_req("POST", ["submodels"], 1, 0, "raw", sm2), P(["shells"], c10.mk_shell(sh2, None, 1, []), "obj"),
+            c10.mk_req("POST", ["shells", c10.b64(sh2), "submodel-refs"], 1, 1, "raw", ref2),
+            c10.mk_req("GET", via2, 1), c10.mk_req("GET", via2 + ["submodel-elements", "b"], 2),
+            c10.mk_req("PUT", via2, 1, 0, "raw", sm2), c10.mk_req("DELETE", via2, 1),
+            c10.mk_req("DELETE", ["shells", c10.b64(sh2), "submodel-refs", c10.b64(i2)], 1)]
+    return out
 
 
 def search(ctx: C.Ctx, disagreements, broken) -> List[C.Failing]:
